@@ -33,10 +33,10 @@ GNext ==
     \/ \E g \in Groups, b \in BOOLEAN :
           /\ ~Last /\ g <= gcount /\ canSign[g] # b /\ SetCanSign(g, b) /\ out' = out
           /\ script' = Append(script, [e |-> "SetCanSign", g |-> g, b |-> b])
-    \/ \E p \in Payer \cup {"authority"}, limit \in LimitSet, incOK \in BOOLEAN :
+    \/ \E p \in Payer \cup {"authority"}, limit \in LimitSet, lx \in {0, 1}, incOK \in BOOLEAN :
           \E S \in ComOrNone(current), SI \in ComOrNone(Incoming) :
-          /\ ~Last /\ Request(p, limit, S, incOK, SI)
-          /\ script' = Append(script, [e |-> "Request", p |-> p, limit |-> limit])
+          /\ ~Last /\ Request(p, limit, lx, S, incOK, SI)
+          /\ script' = Append(script, [e |-> "Request", p |-> p, limit |-> limit, lx |-> lx])
     \/ \E id \in Sigs :
           /\ ~Last /\ SignAll(id)
           /\ script' = Append(script, [e |-> "SignAll", id |-> id])
@@ -50,7 +50,7 @@ GSpec == GInit /\ [][GNext]_gvars
 G1 == IF StartWithGroup THEN SeqOf(grp[1].mem) ELSE <<>>
 Emit ==
     TLCGet("level") = Depth =>
-        Serialize(<<[c |-> [fee |-> fee, startWithGroup |-> StartWithGroup, g1 |-> SeqOf(CHOOSE m \in MemberMenu : Cardinality(m) >= 2),
+        Serialize(<<[c |-> [period |-> par.period, create |-> par.create, fee |-> fee, startWithGroup |-> StartWithGroup, g1 |-> SeqOf(CHOOSE m \in MemberMenu : Cardinality(m) >= 2),
                            g1thr |-> 2, bal |-> [p1 |-> Bal0, p2 |-> Bal0]],
                      steps |-> script]>>,
                   IOEnv.GEN_OUT,
